@@ -5,6 +5,9 @@ from .modes import judge_c06
 
 ID = "C06"
 LEVEL = "exploration"
+MIX = True  # a share of the decodes goes through the other front ends and byte sources (context.py)
+HISTORY = True  # every second shard first runs a prelude of earlier library use (history.py)
+OLANE = True  # two more shards run in an interpreter started with -O (runner.start_olane)
 RULE = (
     "hypothesis-generated arbitrary inputs: random bytes, low-entropy bytes over {00 01 02 10 80 ff}, havoc-mutated well-formed "
     "messages, well-formed messages and repository corpus packets decoded as the wrong type, and well-formed messages with 1-3 "
